@@ -9,5 +9,6 @@ TemplatesV ==
   { TSell(a, q, <<6, 0>>, Z) : a \in {"", "Spouse", "Kid"}, q \in {q1, q2} } \cup
   { TSell("", q1, <<15, 0>>, <<1, 0>>), TRoc("", <<1, 0>>), TSplit("*", "2-for-1", <<2, 0>>, One, FALSE) }
 GapsV == {0, 1, 30, 31}
+SplitRatiosV == {<<2, 1>>, <<1, 2>>, <<3, 2>>, <<1, 3>>}
 OpeningsV == {<<>>}
 =============================================================================
